@@ -145,7 +145,7 @@ func (fr *Frame) call(st *State, v ssa.Value, cc *ssa.CallCommon, in ssa.Instruc
 			return fr.unsupportedErr(in, err)
 		}
 		key := typeArgsRe.ReplaceAllString(typeKey(cc.Value.Type()), "") + "." + cc.Method.Name()
-		if c := vc.ctx.ifaceContracts[key]; c != nil {
+		if c := vc.ifaceContractFor(key); c != nil {
 			sig := cc.Method.Type().(*types.Signature)
 			rs, err := fr.applyContract(st, c, key, sig, cc.Value.Type(), append([]Term{recv}, args...), in)
 			if err != nil {
@@ -202,7 +202,7 @@ func (fr *Frame) staticCall(st *State, fn *ssa.Function, binds []Term, args []Te
 	setResults func([]Term), freshResults func(*State, bool) ([]Term, error), unmodelled func(string) error) error {
 	vc := fr.vc
 	key := funcKey(fn)
-	c := vc.ctx.contracts[key]
+	c := vc.contractFor(key)
 	if c != nil && !c.Inline && len(binds) == 0 {
 		var recvT types.Type
 		if fn.Signature.Recv() != nil {
@@ -462,18 +462,18 @@ func (fr *Frame) applyContract(st *State, c *FuncContract, key string, sig *type
 		}
 	}
 	if c.Logged {
-		if gv := vc.ctx.ghostVars["calls_"+c.LogName]; gv != nil {
+		if gv := vc.ctx.ghostVars[c.PkgPath+"::calls_"+c.LogName]; gv != nil {
 			cur, _, _ := vc.ghostVar(st, gv)
-			st.ghost["gv!"+gv.Name] = vc.Define("calls", Add(cur, IntLit(1)))
+			st.ghost["gv!"+gv.PkgPath+"::"+gv.Name] = vc.Define("calls", Add(cur, IntLit(1)))
 		}
 		off := 0
 		if sig.Recv() != nil || recvT != nil {
 			off = 1
 		}
 		for i := 0; i < sig.Params().Len(); i++ {
-			if gv := vc.ctx.ghostVars["arg_"+c.LogName+"_"+sig.Params().At(i).Name()]; gv != nil && off+i < len(args) {
+			if gv := vc.ctx.ghostVars[c.PkgPath+"::arg_"+c.LogName+"_"+sig.Params().At(i).Name()]; gv != nil && off+i < len(args) {
 				if _, _, err := vc.ghostVar(st, gv); err == nil {
-					st.ghost["gv!"+gv.Name] = args[off+i]
+					st.ghost["gv!"+gv.PkgPath+"::"+gv.Name] = args[off+i]
 				}
 			}
 		}
@@ -483,7 +483,7 @@ func (fr *Frame) applyContract(st *State, c *FuncContract, key string, sig *type
 		st.mbase = vc.freshName("ep")
 	}
 	for _, g := range c.Assigns {
-		if gv := vc.ctx.ghostVars[g]; gv != nil {
+		if gv := vc.ctx.ghostVars[c.PkgPath+"::"+g]; gv != nil {
 			vc.havocGhostVar(st, gv)
 		} else {
 			vc.note("contract error: %s assigns unknown ghost variable %s", key, g)
@@ -800,7 +800,7 @@ func (fr *Frame) callEffects(ci ssa.CallInstruction, li *loopInfo, ef *effects) 
 	}
 	if cc.IsInvoke() {
 		key := typeArgsRe.ReplaceAllString(typeKey(cc.Value.Type()), "") + "." + cc.Method.Name()
-		if c := vc.ctx.ifaceContracts[key]; c != nil {
+		if c := vc.ifaceContractFor(key); c != nil {
 			fr.contractEffects(c, ef)
 			return
 		}
@@ -845,11 +845,11 @@ func (fr *Frame) callEffects(ci ssa.CallInstruction, li *loopInfo, ef *effects) 
 
 func (fr *Frame) contractEffects(c *FuncContract, ef *effects) {
 	for _, g := range c.Assigns {
-		ef.ghostVars[g] = true
+		ef.ghostVars[c.PkgPath+"::"+g] = true
 	}
 	if c.Logged {
 		for n := range fr.vc.ctx.ghostVars {
-			if n == "calls_"+c.LogName || strings.HasPrefix(n, "arg_"+c.LogName+"_") {
+			if n == c.PkgPath+"::calls_"+c.LogName || strings.HasPrefix(n, c.PkgPath+"::arg_"+c.LogName+"_") {
 				ef.ghostVars[n] = true
 			}
 		}
@@ -872,7 +872,7 @@ func (fr *Frame) contractEffects(c *FuncContract, ef *effects) {
 func (fr *Frame) funcEffects(fn *ssa.Function, ef *effects, depth int) {
 	vc := fr.vc
 	key := funcKey(fn)
-	if c := vc.ctx.contracts[key]; c != nil && !c.Inline {
+	if c := vc.contractFor(key); c != nil && !c.Inline {
 		fr.contractEffects(c, ef)
 		return
 	}
@@ -926,7 +926,7 @@ func (fr *Frame) funcEffects(fn *ssa.Function, ef *effects, depth int) {
 				cc := x.Common()
 				if cc.IsInvoke() {
 					key := typeArgsRe.ReplaceAllString(typeKey(cc.Value.Type()), "") + "." + cc.Method.Name()
-					if c := vc.ctx.ifaceContracts[key]; c != nil {
+					if c := vc.ifaceContractFor(key); c != nil {
 						fr.contractEffects(c, ef)
 					} else if !(cc.Method.Name() == "Error" || cc.Method.Name() == "String" || isEffectFree(key)) {
 						ef.all = true
